@@ -196,6 +196,7 @@ def ballot_toprank(self: 'Ballot') -> 'opt:int':
 def ballot_vote(self: 'Ballot') -> 'val':
     "the ballot's value is exactly weight x multiplier (the multiplier is a whole number of ballots)"
     requires(is_whole(self.multiplier))
+    result_is(times_whole(self.weight, self.multiplier))
     ensures(result == times_whole(self.weight, self.multiplier))
     modifies()
 
